@@ -449,7 +449,9 @@ Definition option_estate_eqb := option_eqb estate_eqb.
 Definition trace_eqb := list_eqb titem_eqb.
 
 (* environment events of the request: (kind, FSM state when written, state reported in the event);
-   kind 1 = a transition / teardown starts, 2 = it ends, 0 = any other event *)
+   kind 1 = a transition / teardown starts, 2 = it ends, 4 = a TryTransition that returns an error
+   ends ("transition error" / "transition impossible"), 3 = the harness' record of a reply,
+   0 = any other event *)
 Definition oev := (N * estate * estate)%type.
 
 (* the raw log of a concurrent episode: items and events in one order *)
@@ -778,7 +780,9 @@ Definition corr01 (c : c01_case) : bool :=
       started, or two requests reported a successful teardown of the same environment
    14 a leave hook of a state other than the one its section started in
    15 Manager.TeardownEnvironment without force executed from a state other than STANDBY / DEPLOYED
-   (12-15: a locked section decided on a state that was not the one left by the previous section) *)
+   (12-15: a locked section decided on a state that was not the one left by the previous section)
+   16 the answer of a request depends on the caller's context (Canceled / DeadlineExceeded, no
+      reply) although what it did to the environment is right *)
 
 Definition edge_code (conc listed : bool) (e : estate * estate) : N :=
   let '(a, b) := e in
@@ -805,7 +809,10 @@ Definition own_item (ev : eevent) (t : titem) : bool :=
   | _ => false
   end.
 
-Definition mon_step (s0 : estate) (listed0 : bool) (q : req) (ob : robs) (evs : list oev) : N :=
+(* the answer of a request carries the caller's context error (Canceled / DeadlineExceeded) *)
+Definition ctx_code (c : N) : bool := (c =? 6) || (c =? 7).
+
+Definition mon_step0 (s0 : estate) (listed0 : bool) (q : req) (ob : robs) (evs : list oev) : N :=
   let es := trace_edges s0 (ro_trace ob) ++
             [(fold_left (fun s t => match t with SetSt d => d | _ => s end) (ro_trace ob) s0, ro_final ob)] in
   let g := edges_code false listed0 es in
@@ -831,7 +838,8 @@ Definition mon_step (s0 : estate) (listed0 : bool) (q : req) (ob : robs) (evs : 
         else if negb (estate_eqb (ro_final ob) sERROR) then 5
         else if negb reply_ok then 8 else 0
       | Some d =>
-        if estate_eqb (ro_final ob) d && (ro_code ob =? 0) then (if reply_ok then 0 else 8)
+        if estate_eqb (ro_final ob) d && ((ro_code ob =? 0) || ctx_code (ro_code ob)) then
+          (if reply_ok || ctx_code (ro_code ob) then 0 else 8)
         else if estate_eqb (ro_final ob) sERROR then (if reply_ok then 0 else 8)
         else 5
       end
@@ -842,6 +850,12 @@ Definition mon_step (s0 : estate) (listed0 : bool) (q : req) (ob : robs) (evs : 
     else if ro_listed ob || negb listed0 then 0 else 5
   | _ => 0
   end.
+
+(* 16: what the request did to the environment is right, but its answer depends on the caller's
+   context (no reply; Canceled / DeadlineExceeded) *)
+Definition mon_step (s0 : estate) (listed0 : bool) (q : req) (ob : robs) (evs : list oev) : N :=
+  let c := mon_step0 s0 listed0 q ob evs in
+  if (c =? 0) || (c =? 8) then (if ctx_code (ro_code ob) then 16 else c) else c.
 
 Fixpoint mon_seq (s : estate) (listed : bool) (steps : list (req * oracle * robs * list oev)) : N :=
   match steps with
@@ -857,6 +871,7 @@ Fixpoint brackets_ok (depth : N) (l : list litem) : bool :=
   | [] => true
   | LE 1 _ _ :: r => (depth =? 0) && brackets_ok 1 r
   | LE 2 _ _ :: r => (depth =? 1) && brackets_ok 0 r
+  | LE 4 _ _ :: r => (depth =? 1) && brackets_ok 0 r
   | LE _ _ _ :: r => brackets_ok depth r
   | LI (SetSt _) :: r => brackets_ok depth r
   | LI _ :: r => (depth =? 1) && brackets_ok depth r
@@ -885,6 +900,7 @@ Fixpoint sections_code (open : option estate) (l : list litem) : N :=
   | [] => 0
   | LE 1 st _ :: r => sections_code (Some st) r
   | LE 2 _ _ :: r => sections_code None r
+  | LE 4 _ _ :: r => sections_code None r
   | LE _ _ _ :: r => sections_code open r
   | LI (SetSt _) :: r => sections_code open r
   | LI it :: r =>
@@ -923,6 +939,22 @@ Fixpoint owners_code (ths : list (req * N * option estate)) (macro : list N) (os
   | i :: m, st :: r => let c := owner_code ths i st in if c =? 0 then owners_code ths m r else c
   | _, _ => 0
   end.
+(* how every section ended, in order: 2, or 4 for a TryTransition that returned an error *)
+Fixpoint close_kinds (l : list litem) : list N :=
+  match l with
+  | [] => []
+  | LE 2 _ _ :: r => 2 :: close_kinds r
+  | LE 4 _ _ :: r => 4 :: close_kinds r
+  | _ :: r => close_kinds r
+  end.
+(* some ControlEnvironment's TryTransition returned an error (its own transition or the fallback) *)
+Fixpoint control_failed (ths : list (req * N * option estate)) (macro : list N) (cs : list N) : bool :=
+  match macro, cs with
+  | i :: m, k :: r =>
+    ((k =? 4) && match nth_error ths (N.to_nat i) with Some (QControl _, _, _) => true | _ => false end)
+    || control_failed ths m r
+  | _, _ => false
+  end.
 Definition teardown_successes (ths : list (req * N * option estate)) : nat :=
   length (filter (fun t => match fst (fst t) with
                            | QTeardown _ | QDestroy _ _ _ => snd (fst t) =? 0
@@ -939,6 +971,10 @@ Definition mon_conc (st0 : estate) (o : oracle) (ths : list (req * N * option es
   if negb (oc =? 0) then oc else
   (* an environment is torn down once: two requests reporting a successful teardown *)
   if Nat.leb 2 (teardown_successes ths) then 13 else
+  (* a failed or illegal transition requested through the API leaves the environment in ERROR,
+     whatever the caller does meanwhile and whatever it is answered: afterwards only a teardown moves it *)
+  if Nat.eqb (length macro) (length (close_kinds log)) && control_failed ths macro (close_kinds log) && live final
+  then 5 else
   (* a control request answered Aborted has put the environment in ERROR: afterwards only a
      teardown may move it (class 5 when no unlocked forced state can be involved) *)
   if aborted ths && live final && negb (goerror_path_fault o) then 5 else
@@ -950,7 +986,8 @@ Definition mon_conc (st0 : estate) (o : oracle) (ths : list (req * N * option es
   let g2 := reported_code (edges_code ab listed (pairs_from st0 (log_reported log))) in
   if negb (g2 =? 0) then g2 else
   (* a control request answered Aborted has forced ERROR: afterwards only a teardown may move *)
-  if ab && live final then 9 else 0.
+  if ab && live final then 9 else
+  if existsb (fun t => ctx_code (snd (fst t))) ths then 16 else 0.
 
 Definition is_transition_request (q : req) : bool :=
   match q with
